@@ -373,20 +373,23 @@ end
 
 /-! ### tactic: walk a `do` block applying the closure lemmas -/
 
+attribute [irreducible] Pres NoPanicOn KeepL ErrKeepL
+
 macro "rd_step" : tactic => `(tactic| first
-  | intro _
-  | apply pres_bind | apply pres_ite | exact pres_readU32 | exact pres_readU64 | exact pres_setF _ _
+  | exact pres_readU32 | exact pres_readU64 | exact pres_setF _ _
   | exact pres_failWith _ | exact pres_pure _ | exact pres_getS | exact pres_getF _ | exact pres_readSeedAt _
   | exact pres_readSeedVecAt _ | exact pres_onLeaf clean_liftVec _ | exact pres_onLeaf clean_liftMat _
   | exact pres_onLeaf clean_liftScalar _
-  | apply nopanic_bind | apply nopanic_ite | exact nopanic_readU32 | exact nopanic_readU64 | exact nopanic_setF _ _
+  | exact nopanic_readU32 | exact nopanic_readU64 | exact nopanic_setF _ _
   | exact nopanic_failWith _ | exact nopanic_pure _ | exact nopanic_getS | exact nopanic_getF _ | exact nopanic_readSeedAt _
   | exact nopanic_onLeaf clean_liftVec _ | exact nopanic_onLeaf clean_liftMat _ | exact nopanic_onLeaf clean_liftScalar _
-  | apply keepL_bind | apply keepL_ite | exact keepL_readU32 | exact keepL_readU64 | exact keepL_setF _ _
+  | exact keepL_readU32 | exact keepL_readU64 | exact keepL_setF _ _
   | exact keepL_failWith _ | exact keepL_pure _ | exact keepL_getS | exact keepL_getF _ | exact keepL_readSeedAt _
   | exact keepL_readSeedVecAt _
   | exact errKeepL_onLeaf clean_liftVec _ | exact errKeepL_onLeaf clean_liftMat _ | exact errKeepL_onLeaf clean_liftScalar _
-  | apply errKeepL_bind
-  | assumption)
+  | assumption
+  | apply pres_ite | apply nopanic_ite | apply keepL_ite
+  | apply pres_bind | apply nopanic_bind | apply keepL_bind | apply errKeepL_bind
+  | intro _)
 
 end Ser
